@@ -90,7 +90,15 @@ pub(crate) fn run() -> (Result<(), Error>, Option<StdinLogReader>) {
             server = JobServer::setup(0)?;
             if let Some(mut f) = f {
                 for t in targets.iter() {
-                    f.add_dep(&mut ptx, DepMode::Modified, t)?;
+                    if let Err(e) = f.add_dep(&mut ptx, DepMode::Modified, t) {
+                        if redo::File::from_name(&mut ptx, t, true).is_ok() {
+                            return Err(e.into());
+                        }
+                        // The name itself cannot be resolved (a path through a
+                        // regular file): there is nothing to record, and
+                        // builder::run reports it as that target's failure
+                        // without giving up the other targets.
+                    }
                 }
                 f.save(&mut ptx)?;
                 ptx.commit()?;
